@@ -131,7 +131,11 @@ namespace rpc
         slice(off_t off, size_t len) : offset(off), length(len) {}
 
         string anchor(const buffer& base_buffer) const {
-            assert(offset + length <= base_buffer.size());
+            // offset and length come from the wire: a slice that does not lie
+            // inside the base buffer denotes nothing (an empty string)
+            auto size = base_buffer.size();
+            if (offset < 0 || (size_t) offset > size || length > size - (size_t) offset)
+                return {(char*) nullptr, (size_t) 0};
             return {(char*) base_buffer.addr() + offset, length};
         }
 
